@@ -10,7 +10,9 @@ from ..core import Prop
 from .common import case_from_cfg, write_and_load
 
 PATTERNS = ["aten::", "aten::m", "cuda", "cudaLaunch", "nccl", "Memcpy", "ProfilerStep#", "void ", ".*Kernel", "Memcpy (HtoD|DtoH)", "Stream",
-            ".*Sync$", "nomatch"]
+            ".*Sync$", "nomatch",
+            # patterns that are themselves symbols: a prefix of another symbol, and one whose characters mean something in a regular expression
+            "cudaLaunchKernel", "Memcpy DtoD (Device -> Device)"]
 
 
 def _mk_filter(spec: Dict[str, Any], st):
@@ -77,7 +79,8 @@ class C18(Prop):
         case = case_from_cfg(rng, cfg)
         # encoded_both: the filter object was built with ANOTHER trace's symbol table (same names, other ids); the table passed along with
         # the frame is the frame's and decides what a name id means
-        case["rep"] = rng.choice(["encoded_st", "decoded", "encoded_ctor", "encoded_both"])
+        # decoded_name: only the name column holds strings (what add_symbols_to_trace_df(df, "name") leaves), the category is still an id
+        case["rep"] = rng.choice(["encoded_st", "decoded", "encoded_ctor", "encoded_both", "decoded_name"])
         case["no_end"] = rng.random() < 0.3         # a column subset without the derived `end` column
         case["fseed"] = rng.randrange(10 ** 6)
         case["incl"] = rng.random() < 0.5
@@ -124,7 +127,7 @@ class C18(Prop):
             ta = write_and_load(case, d, include_last=case["incl"])
             st_obj = ta.t.symbol_table
             st = st_obj.get_sym_table()
-            if case["rep"] == "decoded":
+            if case["rep"] in ("decoded", "decoded_name"):
                 ta.t.decode_symbol_ids(use_shorten_name=False)
             parts = []
             for r in sorted(ta.t.traces):
@@ -134,6 +137,9 @@ class C18(Prop):
                 if case["rep"] == "decoded":
                     p["name"] = p["s_name"]
                     p["cat"] = p["s_cat"]
+                elif case["rep"] == "decoded_name":
+                    p["name"] = p["s_name"]
+                    p = p.drop(columns=["s_name", "s_cat"])
                 parts.append(p)
             df = pd.concat(parts, ignore_index=not case.get("dup_labels", False))
             if case.get("no_end") and "end" in df.columns:
@@ -158,7 +164,7 @@ class C18(Prop):
                 return res
 
             kept = []
-            for app in self._specs(rng, obs["frame"], allow_memcpy=case["rep"] != "decoded"):
+            for app in self._specs(rng, obs["frame"], allow_memcpy=case["rep"] not in ("decoded", "decoded_name")):
                 rec = {"fs": [{k: v for k, v in f.items()} for f in app["fs"]], "out": [], "err": "", "mode": app["mode"]}
                 objs = None
                 try:
@@ -178,7 +184,7 @@ class C18(Prop):
             extra = df.iloc[: min(len(df), len(new_names))].copy()
             for k in range(len(extra)):
                 nm = new_names[k]
-                extra.iloc[k, extra.columns.get_loc("name")] = nm if case["rep"] == "decoded" else st_obj.get_sym_id_map()[nm]
+                extra.iloc[k, extra.columns.get_loc("name")] = nm if case["rep"] in ("decoded", "decoded_name") else st_obj.get_sym_id_map()[nm]
                 if "s_name" in extra.columns:
                     extra.iloc[k, extra.columns.get_loc("s_name")] = nm
             extra["uid"] = extra["uid"] + 50000
